@@ -597,6 +597,11 @@ pub mod checks {
                       let got: Vec<usize> = v.iter().map(|r| r.clone().val() as *const Value as usize).collect();
                       let exp: Vec<usize> = d.as_array().unwrap().iter().filter(|x| want(x)).map(|x| x as *const Value as usize).collect();
                       if got != exp { rep.fail("text_cmp.members", &["number-literal-beyond-f64-range".to_string()], w(json!({"observed": v.iter().map(|r| r.clone().path()).collect::<Vec<_>>(), "expected_count": exp.len()}))); }
+                      // the same text over the second implementation: same paths (C15)
+                      { use crate::JsonPath; let j = from_value(&d);
+                        if let Ok(Ok(jp)) = catch_unwind(AssertUnwindSafe(|| j.query_only_path(t))) {
+                            let vp: Vec<String> = v.iter().map(|r| r.clone().path()).collect();
+                            if jp != vp { rep.fail("text_cmp.api_view_independent", &[], w(json!({"value_paths": vp, "kjson_paths": jp}))); } } }
                   }
               }
           }
@@ -671,6 +676,8 @@ pub mod checks {
                   "$[?length(@.a) == 1]", "$[?count(@.*) == 1]", "$[?count(@.*) == 2]", "$[?value(@.a) == 1]", "$[?@.a < 2]", "$[?@.a <= 2]", "$[?@.a > 2]", "$[?!@.a]", "$[?@.a]", "$[?@.a && @.b]", "$[?@.a || @.b]",
                   "$[?match(@, 'a')]", "$[?search(@, 'a')]", "$[?match(@, 'ab')]", "$[?search(@, 'ab')]", "$[?search(@.a, 'b')]", "$[?match(@.a, 'a.')]", "$[?search(@.a, 'a.')]", "$[?match(@.a, '.a')]",
                   "$['a b']", "$['ab']", "$['a']['b']", "$['a'][' b']", "$[?@.t == 'x y']", "$[?@.t == 'xy']", "$[?@.t == 'x  y']", "$['a\\\\b']", "$['\\/']", "$['a\\/b']", "$['a/b']",
+                  "$[9007199254740991]", "$[-9007199254740991]", "$[1:9007199254740991]", "$[-9007199254740991:]", "$[::9007199254740991]", "$[9007199254740991::-2]", "$[?@[9007199254740991] == 1]",
+                  " $.a", "$.a\n", "\t$[0]", "$.a.b[*]\n", " $", "$ ",
                   "$[1:3]", "$[::0]", "$[::-1]", "$[0:0]", "$[5:1]", "$[::2]", "$[?@[::0]]", "$[?@[1:3]]", "$..[::0]", "$..[1:3]", "$..a", "$..*", "$..[0]", "$..[?@.a]", "$..k[1]", "$..b[0]"] {
             texts.push(t.to_string());
         }
@@ -782,12 +789,42 @@ pub mod checks {
                 if r != first[k] { let (ti, di) = pairs[k]; rep.fail("purity.threads", &[], w(ti, di, &first[k], &r, "8 threads sharing the parsed query and the document")); }
             } }
         }
+        // pass 6: the entry points agree on every text, also on texts that are REJECTED (blank space around the expression, garbage): all
+        // of js_path / query / query_only_path / query_with_path accept, or all reject
+        if only.is_none() {
+            use crate::JsonPath;
+            let d = json!({"a": {"b": [1, 2]}, "k": [0, 1, 2]});
+            let mut ts: Vec<String> = texts.iter().filter(|_| true).cloned().collect();
+            for t in [" $.a", "$.a ", "$.a\n", "\n$.a", "\t$.k[0]", "$.k[0]\t", " $", "$ ", "", " ", "$.a.b[*]\n", "$..", "$[", "a", "$.a,", "$$"] { ts.push(t.to_string()); }
+            for t in &ts {
+                rep.evaluations += 1;
+                let r = catch_unwind(AssertUnwindSafe(|| (js_path(t, &d).map(|v| v.len()).ok(), d.query(t).map(|v| v.len()).ok(), d.query_only_path(t).map(|v| v.len()).ok(), d.query_with_path(t).map(|v| v.len()).ok())));
+                match r {
+                    Ok((a, b, c, e)) => if !(a == b && b == c && c == e) { rep.fail("purity.entry_points_agree", &[], json!({"text": t, "doc": d, "js_path": a, "query": b, "query_only_path": c, "query_with_path": e, "detail": "number of nodes, None = Err"})); },
+                    Err(_) => rep.fail("purity.entry_points_agree", &[], json!({"text": t, "doc": d, "detail": "panic"})),
+                }
+            }
+        }
+        // pass 7: LARGE results concurrently (a budget, counter or buffer shared between evaluations shows only when their combined size is large):
+        // 8 threads each evaluate `$..*` and `$[*][*]` on a 400 x 400 table (160 400 nodes), results compared with the sequential ones
+        if only.is_none() {
+            let table = Value::Array((0..400).map(|i| Value::Array((0..400).map(|j| json!(i * 400 + j)).collect())).collect());
+            let seq: Vec<Res> = ["$..*", "$[*][*]"].iter().map(|t| run_text(t, &table).map(|v| vec![(v.len(), String::new())])).collect();
+            let res: Vec<Vec<Res>> = std::thread::scope(|sc| {
+                let hs: Vec<_> = (0..8).map(|_| { let table = &table; sc.spawn(move || ["$..*", "$[*][*]"].iter().map(|t| run_text(t, table).map(|v| vec![(v.len(), String::new())])).collect::<Vec<Res>>()) }).collect();
+                hs.into_iter().map(|h| h.join().unwrap_or_default()).collect()
+            });
+            for rs in res { for (i, r) in rs.iter().enumerate() {
+                rep.evaluations += 1;
+                if *r != seq[i] { rep.fail("purity.threads", &[], json!({"text": (if i == 0 { "$..*" } else { "$[*][*]" }), "doc": "a 400 x 400 table of integers", "qi": 0, "di": 0, "sequential": format!("{:?}", seq[i]), "concurrent": format!("{:?}", r), "how": "8 threads, large results"})); }
+            } }
+        }
         rep.samples.push(json!({"texts": texts.len(), "documents": ds.len(), "pairs": pairs.len(), "threads": nthreads}));
         rep
     }
 
     // ---------------------------------------------------------------- C08: deep nesting (stack depth, parse time) — one probe per process
-    pub const DEEP_PROBES: [&str; 8] = ["parens", "not_parens", "fn_nesting_valid", "fn_nesting_invalid", "nested_filters", "doc_descendant", "doc_eq", "segments"];
+    pub const DEEP_PROBES: [&str; 9] = ["parens", "not_parens", "fn_nesting_valid", "fn_nesting_invalid", "nested_filters", "doc_descendant", "doc_eq", "segments", "cmp_nesting"];
     fn deep_array(depth: usize) -> Value { let mut v = json!(1); for _ in 0..depth { v = Value::Array(vec![v]); } v }
     pub fn deep_probe(probe: usize, d: usize) -> Value {
         use crate::JsonPath;
@@ -802,6 +839,9 @@ pub mod checks {
             "doc_descendant" => ("$..*".to_string(), deep_array(d), Some(d)),
             "doc_eq" => ("$[?@ == $[0]]".to_string(), json!([deep_array(d), deep_array(d), deep_array(d + 1)]), Some(2)),
             "segments" => (format!("${}", "[0]".repeat(d)), deep_array(d + 1), Some(1)),
+            // `<=` whose operand is a function of a filter that contains the next `<=` ... : linear in the depth (an operand evaluated twice per level is 2^depth)
+            "cmp_nesting" => { let mut f = "count(@.*) <= 9".to_string(); for _ in 0..d { f = format!("count(@[?{}]) <= 9", f); }
+                               (format!("$[?{}]", f), json!([deep_array(d + 2)]), Some(1)) }
             _ => ("$".to_string(), small, Some(1)),
         };
         let t0 = std::time::Instant::now();
@@ -1040,6 +1080,20 @@ pub mod checks {
                 }
             }
         }
+        // many DISTINCT patterns in a row in one thread, invalid ones first (a cache or table of compiled patterns must survive any number of them)
+        for i in 0..400usize {
+            for (kind, pat) in [("invalid", format!("(a{}", i)), ("valid", format!("a{{{}}}", i % 7))] {
+                rep.evaluations += 1;
+                let (sv, pv) = (json!("aaa"), json!(pat));
+                let (ls, rs) = (State::data(&root, Data::Ref(Pointer::new(&sv, "$".to_string()))), State::data(&root, Data::Ref(Pointer::new(&pv, "$".to_string()))));
+                let want = if kind == "invalid" { false } else { regex_find("aaa", &pat) };
+                match catch_unwind(AssertUnwindSafe(|| crate::query::test_function::verif_x::regex(ls, rs, true).ok_val())) {
+                    Ok(Some(Value::Bool(b))) if b == want => {}
+                    Err(_) => rep.fail("regex.no_panic", &[], json!({"subject": "aaa", "pattern": pat, "qi": 10_000 + i, "di": 0, "detail": "panic on the i-th distinct pattern of a sequence", "i": i})),
+                    other => rep.fail("regex.search", &[], json!({"subject": "aaa", "pattern": pat, "qi": 10_000 + i, "di": 0, "observed": format!("{:?}", other.ok().flatten()), "expected": want})),
+                }
+            }
+        }
         rep.samples.push(json!({"subject": "ab", "pattern": "a|b", "match": regex_full("ab", "a|b"), "search": regex_find("ab", "a|b")}));
         rep
     }
@@ -1173,6 +1227,30 @@ pub mod checks {
                             Ok(true) => {}
                         }
                     }
+                }
+            }
+        }
+        // hand-built ASTs the parser never produces (the model types are public): an empty selector list, empty `||` / `&&`, an empty name,
+        // a step-0 slice, an extension call without arguments - evaluation must not panic and must return Ok
+        let odd: Vec<JpQuery> = vec![
+            JpQuery::new(vec![Segment::Selectors(vec![])]),
+            JpQuery::new(vec![Segment::Selector(Selector::Wildcard), Segment::Selectors(vec![])]),
+            JpQuery::new(vec![Segment::Descendant(Box::new(Segment::Selectors(vec![])))]),
+            JpQuery::new(vec![Segment::Selector(Selector::Filter(Filter::Or(vec![])))]),
+            JpQuery::new(vec![Segment::Selector(Selector::Filter(Filter::And(vec![])))]),
+            JpQuery::new(vec![Segment::Selector(Selector::Filter(Filter::Or(vec![Filter::And(vec![])])))]),
+            JpQuery::new(vec![Segment::Selector(Selector::Name(String::new()))]),
+            JpQuery::new(vec![Segment::Selector(Selector::Slice(Some(0), Some(0), Some(0)))]),
+            JpQuery::new(vec![Segment::Selector(Selector::Filter(Filter::Atom(FilterAtom::Test { expr: Box::new(Test::RelQuery(vec![Segment::Selectors(vec![])])), not: false })))]),
+            JpQuery::new(vec![Segment::Selector(Selector::Filter(Filter::Atom(FilterAtom::Test { expr: Box::new(Test::Function(Box::new(TestFunction::Custom(String::new(), vec![])))), not: true })))]),
+        ];
+        for (qi, q) in odd.iter().enumerate() {
+            for (di, d) in docs.iter().chain([json!([[1, 2], {"a": 1}]), json!({"a": [1], "": 2})].iter()).enumerate() {
+                rep.evaluations += 1;
+                match catch_unwind(AssertUnwindSafe(|| js_path_process(q, d).is_ok())) {
+                    Err(_) => rep.fail("custom.no_panic", &[], json!({"query": show(q), "doc": d, "qi": 1000 + qi, "di": di, "detail": "an AST outside the grammar"})),
+                    Ok(false) => rep.fail("custom.ok", &[], json!({"query": show(q), "doc": d, "qi": 1000 + qi, "di": di})),
+                    Ok(true) => {}
                 }
             }
         }
